@@ -398,7 +398,14 @@ fn c19_pair(c: &mut Ctx, p: u16, u: u16) {
     let mut is = pid;
     is -= u;
     let back = a - u;
-    if a.value() != wa || s.value() != ws || ia != a || is != s || back != pid || a.value() == 0 || s.value() == 0 {
+    // the same operators reached through a borrowed identifier (method syntax auto-derefs to the
+    // by-value impls today; a dedicated `impl Add<u16> for &Pid` would be picked up here)
+    let (ra, rs) = {
+        use std::ops::{Add, Sub};
+        let r: &Pid = &pid;
+        (r.add(u), r.sub(u))
+    };
+    if a.value() != wa || s.value() != ws || ia != a || is != s || back != pid || a.value() == 0 || s.value() == 0 || ra != a || rs != s {
         c.violation(
             "C19:arithmetic",
             format!(
